@@ -38,6 +38,7 @@ def tree(n):
 def setup(ctx):
     ctx.add_page("Template:a", 10, "A{{{1|}}}")
     ctx.add_page("Template:loop", 10, "x{{loop}}")
+    ctx.add_page("Template:nw", 10, "N<nowiki>{{a}} [[x]]</nowiki>M")
     ctx.add_page("Template:h", 10, "==H==\n{{{1|}}}", need_pre_expand=True)
     ctx.add_page("Foo:Bar", 0, "AB<noinclude>doc</noinclude>")
     ctx.add_page("Glossary", 0, "G<noinclude>n</noinclude><section begin=s/>sec<section end=s/>")
@@ -49,14 +50,14 @@ with quiet_stdout():
 setup(c0)
 c0.close_db_conn() if False else c0.db_conn.close()
 
-PAGES = ["plain text", "{{a|x}} and {{a}}", "{{loop}}", "<pre>unclosed pre\n* li", "==H==\n* a\n** b", "{{#expr:1+}} {{#if:x|y}}",
+PAGES = ["plain text", "{{a|x}} and {{a}}", "{{nw}} {{nw}} <nowiki>q</nowiki>", "{{loop}}", "<pre>unclosed pre\n* li", "==H==\n* a\n** b", "{{#expr:1+}} {{#if:x|y}}",
          "{| \n| cell\n|}", "'''bold ''it", "{{:Foo:Bar}}", "{{PAGESIZE:Foo:Bar}}", "{{#lst:Glossary|s}}", "{{:Glossary}}",
          "<foo>x</foo> <b>y</b>", "{{h|z}}", "[[L|{{a}}]] [http://x y]", "<nowiki>{{a}}</nowiki><!-- c -->", "{{#invoke}}",
          "{{nosuch|{{a}}}}", ":; mixed\n#* list", "<ref name=x>r</ref><references/>", "{{a|\n}}", "</pre> </b> |}", "{{#tag:span|x}}",
          "{{t|" * 700 + "x" + "}}" * 700, "[[L|" * 700 + "x"]
 DEEP = [i for i, p in enumerate(PAGES) if len(p) > 1000]
 if tier == "quick":
-    PAGES = PAGES[:16] + PAGES[-2:]
+    PAGES = PAGES[:17] + PAGES[-2:]
     DEEP = [i for i, p in enumerate(PAGES) if len(p) > 1000]
 
 
@@ -130,6 +131,28 @@ for i in range(n):
 for d in DEEP:
     for j in range(min(n, 8)):
         history([d, j], ["parse", "both"])
+# contexts of other languages, after the English contexts above were used in this process: same results as in a
+# fresh interpreter (state kept on the class or the module would show here)
+import json
+import subprocess
+from bounded.c09_langprobe import probe
+for lang in (["fr", "zh"] if tier == "quick" else ["fr", "zh", "de", "ru", "es", "ja"]):
+    evaluations += 1
+    try:
+        child = subprocess.run([sys.executable, "-m", "bounded.c09_langprobe", lang], capture_output=True, text=True,
+                               timeout=600, cwd=os.path.dirname(os.path.dirname(os.path.abspath(__file__))))
+        want = json.loads(child.stdout.strip().splitlines()[-1])
+    except Exception as ex:
+        fail("c09:other-language-context#baseline-run", f"{type(ex).__name__}: {ex}", {"lang": lang}, "harness")
+        continue
+    got = json.loads(json.dumps(probe(lang), sort_keys=True, default=str))
+    if got != want:
+        diff = [k for k in want if got.get(k) != want.get(k)]
+        fail("c09:other-language-context-equals-fresh-interpreter",
+             f"lang_code={lang!r} after English contexts were used in the same process: differs on {diff[:3]}: "
+             f"{ {k: (str(got.get(k))[:100], str(want.get(k))[:100]) for k in diff[:2]} }",
+             {"lang_code": lang, "pages": diff[:3]}, "process-history-dependent")
+    distinct.add(("lang", lang))
 samples.append({"history": [PAGES[0], PAGES[3], PAGES[4]]})
 import shutil
 shutil.rmtree(TMP, ignore_errors=True)
@@ -138,4 +161,5 @@ emit({"evaluations": evaluations, "distinct_nontrivial": len(distinct),
       "failures": list(failures.values()), "samples": samples,
       "bound": f"all ordered pairs of {n} Python-only pages, random histories of length 3..6 with interleaved parse/expand, "
                "optionally after creating a context with extension_tags/aliases/another language; tree + expansion + messages "
-               "compared with a fresh context on the same database; Lua-side state not covered (sandbox cannot start offline)"})
+               "compared with a fresh context on the same database; contexts of other languages compared with a fresh "
+               "interpreter; Lua-side state not covered (sandbox cannot start offline)"})
